@@ -4,7 +4,7 @@ CONSTANTS
   FullDepth = 2
   CtxDepth = 0
   StmtFull = FALSE
-  Salts = {1, 2}
+  Salts = {1}
   EmitMod = 1
   GenFam = {}
 INIT GInitSpine
